@@ -50,11 +50,12 @@ fn run_case(limreq: u64, progs: &[Vec<Op>], sched: &[usize]) -> Run {
     let b = Arc::new(MemoryBudget::with_limit(limreq as usize));
     let n = progs.len();
     let mut s = Scheduler::new(n);
-    // Verdict "blocked" after 30 ms; it is only accepted where blocking is possible at all (the
-    // thread is parked at site 99 = in front of allocate's mutex while another thread is parked
-    // inside the critical section); everywhere else the step is waited for (a slow thread on a
-    // loaded machine is not a blocked one).
-    Arc::get_mut(&mut s).expect("fresh scheduler").block_timeout = std::time::Duration::from_millis(30);
+    // Verdict "blocked" 4 ms after the thread has resumed (the scheduler does not start the clock
+    // before); it is only accepted where blocking is possible at all (the thread is parked at
+    // site 99 = in front of allocate's mutex while another thread is parked inside the critical
+    // section - there it must block, however slow it is); everywhere else the step is waited for
+    // (a slow thread on a loaded machine is not a blocked one).
+    Arc::get_mut(&mut s).expect("fresh scheduler").block_timeout = std::time::Duration::from_millis(4);
     s.install();
     let results: Vec<Arc<Mutex<Vec<i128>>>> = (0..n).map(|_| Arc::new(Mutex::new(vec![]))).collect();
     let mut hs = vec![];
@@ -498,13 +499,17 @@ fn enumerated(quick: bool) -> Vec<CaseIn> {
     let mut out: Vec<CaseIn> = vec![];
     let lim = 4 * M;
     let (c, q, r, s, h) = (0usize, 1usize, 2usize, 3usize, 4usize);
-    // two threads, one allocate each: all 70 interleavings
+    // quick tier: every `stride`-th interleaving of the long shapes (thorough: all of them)
+    let every = |v: Vec<Vec<usize>>, stride: usize| -> Vec<Vec<usize>> {
+        if quick { v.into_iter().step_by(stride).collect() } else { v }
+    };
+    // two threads, one allocate each: all interleavings (252 with the hook site 99)
     let cross: Vec<(usize, u64, usize, u64)> = vec![
         (c, 3 * M, q, 3 * M), (c, 2 * M, h, 2 * M), (c, 2 * M, h, 2 * M + 1), (q, M, r, M), (h, 3 * M, s, 5 * M / 2),
         (q, 3 * M, h, M + 1), (c, 3456 * K, q, 640 * K), (r, 256 * K, s, 128 * K),
     ];
     for (i, (p0, n0, p1, n1)) in cross.iter().enumerate() {
-        if quick && i >= 6 { break; }
+        if quick && i >= 3 { break; }
         let progs = vec![vec![Op::A(*p0, *n0)], vec![Op::A(*p1, *n1)]];
         for sc in all_schedules(&progs) {
             out.push((lim, progs.clone(), sc, "enum_cross_pool"));
@@ -512,7 +517,7 @@ fn enumerated(quick: bool) -> Vec<CaseIn> {
     }
     let same: Vec<(usize, u64, u64)> = vec![(h, 3 * M, 3 * M), (c, 2 * M, 2 * M), (h, 2 * M, 2 * M + 1), (q, M, M), (c, 3456 * K, 1), (h, 4 * M, 1)];
     for (i, (p, n0, n1)) in same.iter().enumerate() {
-        if quick && i >= 4 { break; }
+        if quick && i >= 2 { break; }
         let progs = vec![vec![Op::A(*p, *n0)], vec![Op::A(*p, *n1)]];
         for sc in all_schedules(&progs) {
             out.push((lim, progs.clone(), sc, "enum_same_pool"));
@@ -523,7 +528,7 @@ fn enumerated(quick: bool) -> Vec<CaseIn> {
     for (i, (p, big, small)) in aba.iter().enumerate() {
         if quick && i >= 2 { break; }
         let progs = vec![vec![Op::A(*p, *big)], vec![Op::A(*p, *small), Op::G(0, *p, *small), Op::A(*p, *small)]];
-        for sc in all_schedules(&progs) {
+        for sc in every(all_schedules(&progs), if i == 0 { 7 } else { 23 }) {
             out.push((lim, progs.clone(), sc, "enum_aba"));
         }
     }
@@ -532,7 +537,7 @@ fn enumerated(quick: bool) -> Vec<CaseIn> {
     for (i, (p0, n0, p1, n1)) in ar.iter().enumerate() {
         if quick && i >= 2 { break; }
         let progs = vec![vec![Op::A(*p0, *n0), Op::G(0, *p0, *n0)], vec![Op::A(*p1, *n1), Op::G(0, *p1, *n1)]];
-        for sc in all_schedules(&progs) {
+        for sc in every(all_schedules(&progs), 5) {
             out.push((lim, progs.clone(), sc, "enum_alloc_release"));
         }
     }
@@ -626,7 +631,7 @@ fn gen(a: &Args) {
         }
     } else {
         cases = enumerated(!a.thorough());
-        let nrand = if a.thorough() { 40_000 } else { 1_200 };
+        let nrand = if a.thorough() { 15_000 } else { 800 };
         for _ in 0..nrand {
             cases.push(random_case(&mut rng, a.thorough()));
         }
